@@ -17,3 +17,4 @@ def run(ck):
     prefetch.r11_tail_access_needs_remaining_count(ck, P, 'C19-R10')
     geometry.r9_clip_consulted_under_its_flag(ck, P, 'C19-R11')
     status.r19_13_shortcut_needs_plain_destination(ck, P, 'C19-R13')
+    status.r19_14_direct_fill_passes_the_image_bounds(ck, P)
